@@ -52,10 +52,15 @@ def guiOp (toks : List String) : String :=
     let s3 := run true fuel s2
     -- input from the GUI thread needs the client mutex: free unless the receive thread sits inside a read
     let inp := if kv toks "inputs" == some "1" then (if s1.pc = .rd then "blocked" else "ok") else "-"
-    let model := "silent=" ++ showIds s1.delivered ++ " final=" ++ showIds s3.delivered ++ " exit=" ++ (if s3.pc = .done then "yes" else "no") ++ " in=" ++ inp
+    -- confirm-actives the server receives in all: the first activation, plus one per demand-active (`das=`: positions
+    -- in `plens`) that the thread consumed before it stopped
+    let das := match kv toks "das" with | some d => natList d | none => []
+    let consumed := stream.length - s3.pdus.length - actPdus.length
+    let ca := 1 + (das.filter fun d => d < consumed).length
+    let model := "silent=" ++ showIds s1.delivered ++ " final=" ++ showIds s3.delivered ++ " exit=" ++ (if s3.pc = .done then "yes" else "no") ++ " in=" ++ inp ++ " ca=" ++ toString ca
     -- specification: everything sent is forwarded while the server is silent, and the thread stops
     let all := showIds ((List.range (plens.length - (quiet.filter (· < plens.length)).eraseDups.length)))
-    let want := "silent=" ++ all ++ " final=" ++ all ++ " exit=yes in=" ++ (if kv toks "inputs" == some "1" then "ok" else "-")
+    let want := "silent=" ++ all ++ " final=" ++ all ++ " exit=yes in=" ++ (if kv toks "inputs" == some "1" then "ok" else "-") ++ " ca=" ++ toString (1 + das.length)
     -- class of the recorded finding: some PDU ends inside a record
     let bounds := ((stream.drop actPdus.length).take (if packed then stream.length else bitmaps.length)).foldl (fun (acc : List Nat × Nat) p => (acc.1 ++ [acc.2 + p.len], acc.2 + p.len)) ([], 0)
     let recEnds := recs.foldl (fun (acc : List Nat × Nat) r => (acc.1 ++ [acc.2 + r], acc.2 + r)) ([], 0)
